@@ -5,6 +5,7 @@ import (
 	"fmt"
 	"reflect"
 	"testing"
+	"time"
 
 	eventbus "github.com/jilio/ebu"
 	"pgregory.net/rapid"
@@ -29,6 +30,22 @@ type C09Scenario struct {
 	Pubs    [][]C09Pub `json:"pubs"` // per publisher task
 	Async   bool       `json:"async_handlers,omitempty"`
 	Handler bool       `json:"handlers"` // subscribe handlers that look their event up in the store
+	// TimeoutMs: value of the persistence timeout when that option is used (0 = 1 s). SlowMs: the store does not
+	// watch its context and every Append takes this long (simulated time) - longer than a short timeout. The
+	// timeout bounds the context given to the store, nothing else: the record still precedes the handlers.
+	TimeoutMs int `json:"timeout_ms,omitempty"`
+	SlowMs    int `json:"slow_ms,omitempty"`
+}
+
+// slowStore is a store that ignores its context and takes its time.
+type slowStore struct {
+	eventbus.EventStore
+	d time.Duration
+}
+
+func (s slowStore) Append(ctx context.Context, ev *eventbus.Event) (eventbus.Offset, error) {
+	simrt.Sleep(s.d)
+	return s.EventStore.Append(context.WithoutCancel(ctx), ev)
 }
 
 var c09OptNames = []string{"store", "before", "before-ctx", "after", "after-ctx", "obs", "errhandler", "substore", "batchsize", "panichandler", "timeout"}
@@ -56,6 +73,10 @@ func genC09(rt *rapid.T) core.Scenario {
 			l = append(l, pb)
 		}
 		sc.Pubs = append(sc.Pubs, l)
+	}
+	if rapid.IntRange(0, 3).Draw(rt, "slow") == 3 {
+		sc.TimeoutMs = rapid.SampledFrom([]int{0, 5, 5}).Draw(rt, "timeoutMs")
+		sc.SlowMs = rapid.SampledFrom([]int{1, 20}).Draw(rt, "slowMs")
 	}
 	sc.Handler = rapid.IntRange(0, 4).Draw(rt, "handlers") > 0
 	sc.Async = rapid.IntRange(0, 3).Draw(rt, "async") == 3
@@ -91,6 +112,9 @@ func (sc *C09Scenario) Execute(t *testing.T) *core.Outcome {
 		}
 		fc := newFcore(inner, FaultPlan{}, &rec)
 		store := fc.wrap(false)
+		if sc.SlowMs > 0 {
+			store = slowStore{store, time.Duration(sc.SlowMs) * time.Millisecond}
+		}
 		var opts []eventbus.Option
 		for _, o := range sc.Opts {
 			switch o {
@@ -120,7 +144,11 @@ func (sc *C09Scenario) Execute(t *testing.T) *core.Outcome {
 			case "panichandler":
 				opts = append(opts, eventbus.WithPanicHandler(func(any, reflect.Type, any) {}))
 			case "timeout":
-				opts = append(opts, eventbus.WithPersistenceTimeout(1e9))
+				to := time.Second
+				if sc.TimeoutMs > 0 {
+					to = time.Duration(sc.TimeoutMs) * time.Millisecond
+				}
+				opts = append(opts, eventbus.WithPersistenceTimeout(to))
 			}
 		}
 		bus := eventbus.New(opts...)
